@@ -27,7 +27,9 @@ RULE = ("one unit = one (volume, option set, variant): volumes (130,3,2) "
         "labels converted as segmentation / compressed_segmentation, "
         "(130,20,40) and (40,130,20) uint8 with anisotropic voxels; "
         "downscaling method {explicit, auto}; option sets {default, --flat --no-gzip, --no-gzip, "
-        "--sharding 1,1,0}; menu = generate-info, generate-scales-info, "
+        "--sharding 1,1,0, value mapping (--ignore-scaling --input-min "
+        "--input-max)}; downscaling {explicit, auto, average with "
+        "--outside-value}; menu = generate-info, generate-scales-info, "
         "volume-to-precomputed, compute-scales, all-in-one pyramid (own "
         "directory), prepare + convert-chunks (third directory), "
         "scale-stats, with --mmap variants; BFS to depth 6 (quick) / 9 "
@@ -63,9 +65,11 @@ VOLUMES = {
     "u8-aniso-x": {"shape": (40, 130, 20), "dtype": "uint8",
                    "vox": (4, 1, 2)},
 }
-METHODS = ("explicit", "auto")
+METHODS = ("explicit", "auto", "average-outside")
 OPTSETS = {"default": [], "flat-nogzip": ["--flat", "--no-gzip"],
-           "nogzip": ["--no-gzip"], "sharded": []}
+           "nogzip": ["--no-gzip"], "sharded": [], "valuemap": []}
+# value-mapping options given to every command that reads the volume
+VALUEMAP = ["--ignore-scaling", "--input-min", "10", "--input-max", "300"]
 
 
 def make_volume(path, v):
@@ -96,15 +100,19 @@ def commands(vol, optset, ws, mmap, method="explicit"):
             "compressed_segmentation"] if seg else [])
     if method == "auto":
         dsm = []            # "auto": average for images, stride for labels
+    elif method == "average-outside":
+        dsm = ["--downscaling-method", "average", "--outside-value", "200"]
     else:
         dsm = ["--downscaling-method", "majority" if seg else "stride"]
+    vm = VALUEMAP if optset == "valuemap" else []
     cmds = {
         "gen-info": ("volume_to_precomputed",
-                     ["--generate-info", nii, D] + shard, None),
+                     ["--generate-info", nii, D] + shard + vm, None),
         "gen-scales": ("generate_scales_info",
                        [os.path.join(D, "info_fullres.json"), D] + typ,
                        None),
-        "vol2pre": ("volume_to_precomputed", [nii, D] + o + shard + mm, D),
+        "vol2pre": ("volume_to_precomputed",
+                    [nii, D] + o + shard + mm + vm, D),
         "compute-scales": ("compute_scales", [D] + o + dsm, D),
         "scale-stats": ("scale_stats", [D], None),
         "prep-convert": ("generate_scales_info",
@@ -115,7 +123,7 @@ def commands(vol, optset, ws, mmap, method="explicit"):
     }
     if optset != "sharded":
         cmds["pyramid"] = ("volume_to_precomputed_pyramid",
-                           [nii, D2] + o + typ + dsm + mm, D2)
+                           [nii, D2] + o + typ + dsm + mm + vm, D2)
     return cmds
 
 
@@ -351,7 +359,7 @@ def explore(col, vol, optset, mmap, depth, method="explicit"):
             # workflow
             v = VOLUMES[vol]
             if v["dtype"] == "uint8" and not v.get("slope") \
-                    and rp.ok and complete(a):
+                    and optset != "valuemap" and rp.ok and complete(a):
                 _slices_equivalence(col, case0, ws, cmds, vol, optset, a)
         else:
             # sharded: the step-by-step pipeline alone must succeed
@@ -490,6 +498,14 @@ def units(tier):
                 if mmap and (tier == "quick" and optset != "default"):
                     continue
                 for method in METHODS:
+                    if method == "average-outside" and (
+                            VOLUMES[vol].get("segmentation") or mmap
+                            or optset not in ("default", "nogzip")):
+                        continue
+                    if optset == "valuemap" and (
+                            method != "explicit" or mmap
+                            or VOLUMES[vol].get("segmentation")):
+                        continue
                     if tier == "quick" and method == "auto" and (
                             mmap or optset not in ("default", "sharded")):
                         continue
